@@ -246,6 +246,28 @@ func c11Run(ctx *core.Ctx) {
 			}
 			batch(conf, ls)
 		}
+		// lines generated for the all-enabled configuration, sent to servers that lack some of the
+		// extensions: valid (with known values) when only enabled extensions are used, otherwise
+		// left to the classifier (a parameter of a disabled extension, in any letter case)
+		for conf := 0; conf < 31; conf++ {
+			var ls []c11Line
+			for i := 0; i < per/2; i++ {
+				r := core.NewRand(ctx.Seed, 113, uint64(conf), uint64(i))
+				var l c11Line
+				if i%2 == 0 {
+					l = c11GenMail(r, c11Conf(31))
+				} else {
+					l = c11GenRcpt(r, c11Conf(31))
+				}
+				cf := c11Conf(conf)
+				uses := ref.ExtConf{UTF8: l.UTF8 || strings.Contains(l.Line, "ü"), RequireTLS: l.ReqTLS, Binary: l.Body == "BINARYMIME", DSN: l.Ret != "" || l.EnvID != "" || len(l.Notify) > 0 || l.ORcpt != "", RRVS: l.RRVS != ""}
+				if (uses.UTF8 && !cf.UTF8) || (uses.RequireTLS && !cf.RequireTLS) || (uses.Binary && !cf.Binary) || (uses.DSN && !cf.DSN) || (uses.RRVS && !cf.RRVS) {
+					l.Valid = false
+				}
+				ls = append(ls, l)
+			}
+			batch(conf, ls)
+		}
 		// parameters of disabled extensions and malformed values
 		probes := []string{
 			"MAIL FROM:<a@b.test> SMTPUTF8", "MAIL FROM:<a@b.test> REQUIRETLS", "MAIL FROM:<a@b.test> BODY=BINARYMIME", "MAIL FROM:<a@b.test> RET=FULL",
@@ -341,7 +363,33 @@ func c11Exec(ctx *core.Ctx, c c11Case) {
 		return
 	}
 	defer func() { closeConn() }()
-	for _, l := range c.Lines {
+	poisons := []string{
+		"MAIL FROM:<poison@x.test> SIZE=777 BODY=8BITMIME RET=FULL ENVID=poison AUTH=<> SMTPUTF8 REQUIRETLS X=1=2",
+		"RCPT TO:<poison@x.test> NOTIFY=NEVER ORCPT=rfc822;poison@x.test RRVS=2001-01-01T00:00:00Z X=1=2",
+		"MAIL FROM:<poison@x.test> SIZE=778 BODY=7BIT ENVID=poison2 AUTH=poison@x.test FOO=bar",
+		"RCPT TO:<poison@x.test> NOTIFY=SUCCESS,FAILURE ORCPT=utf-8;poison@x.test BAR",
+		"MAIL FROM:<poison@x.test> SIZE=779 RET=HDRS AUTH=<> ENVID=",
+		"MAIL FROM:<poison@x.test SIZE=780 BODY=8BITMIME",
+	}
+	for li, l := range c.Lines {
+		if l.Valid && li%3 == 1 {
+			// state must not leak from a refused command into the next one
+			pl := poisons[(li/3+c.Conf)%len(poisons)]
+			if strings.HasPrefix(pl, "RCPT") {
+				cmd("MAIL FROM:<s@x.test>")
+			}
+			if pr, ok := cmd(pl); ok && pr.Class() == 2 {
+				cmd("RSET")
+			} else if !ok {
+				closeConn()
+				if !open() {
+					return
+				}
+			}
+			if strings.HasPrefix(pl, "RCPT") {
+				cmd("RSET")
+			}
+		}
 		v := ref.Unspecified
 		if !l.Valid {
 			v = ref.ClassifyLine(l.Line, conf)
